@@ -2279,6 +2279,13 @@ impl fmt::Display for GroupChoice<'_> {
     }
 
     if self.group_entries.len() == 1 {
+      #[cfg(feature = "ast-comments")]
+      if let Some(comments) = &self.comments_before_grpchoice {
+        if comments.any_non_newline() {
+          let _ = write!(gc_str, " {}", comments);
+        }
+      }
+
       let _ = write!(
         gc_str,
         " {}{}",
